@@ -4,6 +4,7 @@ import Vflow.Proofs.SflowJsonTree
 import Vflow.Proofs.JsonAccepted
 import Vflow.Props.C12
 import Vflow.Props.C03
+import Vflow.Props.C14
 import Vflow.Proofs.RoundIpfix
 import Vflow.Proofs.RoundV9
 /-!
@@ -279,18 +280,15 @@ theorem toJRecs_floatOk (ft : Val → Bytes) (hft : ∀ i e v, FloatOk ⟨i, e, 
   obtain ⟨f0, _, rfl⟩ := hf
   exact hft f0.id f0.ent f0.val
 
-/-- **C05 end to end (IPFIX)**: every payload the IPFIX worker pool publishes -/
-theorem ipfix_published_end_to_end {cfg : Cfg} {spec : CountSpec} (ft : Val → Bytes)
-    (hft : ∀ i e v, FloatOk ⟨i, e, v, ft v⟩) (hc : Canonical spec cfg.prog)
-    {c : Cache} {mem0 : BufId → Bytes} {s : State (ipfixCodec ft)}
-    (hr : Reach cfg (init (ipfixCodec ft) c mem0) s) (id : Nat) (p : Bytes)
-    (hp : Event.published id p ∈ s.log) :
+/-- what a solo result of the IPFIX codec is -/
+theorem ipfix_sol_spec (ft : Val → Bytes) (hft : ∀ i e v, FloatOk ⟨i, e, v, ft v⟩)
+    {log : List (Event (ipfixCodec ft))} {id : Nat} {p : Bytes} (hs : Sol log id p) :
     ∃ (d : Dgram) (cache : Cache) (h : Hdr) (recs : List Record) (errs : List Err),
-      Event.received d ∈ s.log ∧ d.id = id ∧
+      Event.received d ∈ log ∧ d.id = id ∧
       (Ipfix.decode cache d.addr d.bytes).1 = .ok (h, recs, errs) ∧ recs ≠ [] ∧
       p = render (ipfixTree d.addr h (toJRecs ft recs)) ∧
       DVal p (ipfixTree d.addr h (toJRecs ft recs)) ∧ jsonValid p = true := by
-  obtain ⟨d, cache, h1, h2, m, hm, hd, hmar⟩ := C12.solo_spelled_out ((C12.published_is_solo hc hr).2.2 id p hp)
+  obtain ⟨d, cache, h1, h2, m, hm, hd, hmar⟩ := C12.solo_spelled_out hs
   have hdec : (ipfixCodec ft).decode cache d.addr d.bytes =
       (match Ipfix.decode cache d.addr d.bytes with
        | (.ok (h, recs, _), c') => (some (d.addr, h, recs), c')
@@ -314,6 +312,43 @@ theorem ipfix_published_end_to_end {cfg : Cfg} {spec : CountSpec} (ft : Val → 
       · rw [hp', ipfix_marshal_eq_render]
       · rw [hp']; exact ipfix_marshal_valid _ _ _ hfo
       · rw [hp']; exact ipfix_marshal_accepted _ _ _ hfo
+
+/-- **C05 end to end (IPFIX)**: every payload the IPFIX worker pool publishes -/
+theorem ipfix_published_end_to_end {cfg : Cfg} {spec : CountSpec} (ft : Val → Bytes)
+    (hft : ∀ i e v, FloatOk ⟨i, e, v, ft v⟩) (hc : Canonical spec cfg.prog)
+    {c : Cache} {mem0 : BufId → Bytes} {s : State (ipfixCodec ft)}
+    (hr : Reach cfg (init (ipfixCodec ft) c mem0) s) (id : Nat) (p : Bytes)
+    (hp : Event.published id p ∈ s.log) :
+    ∃ (d : Dgram) (cache : Cache) (h : Hdr) (recs : List Record) (errs : List Err),
+      Event.received d ∈ s.log ∧ d.id = id ∧
+      (Ipfix.decode cache d.addr d.bytes).1 = .ok (h, recs, errs) ∧ recs ≠ [] ∧
+      p = render (ipfixTree d.addr h (toJRecs ft recs)) ∧
+      DVal p (ipfixTree d.addr h (toJRecs ft recs)) ∧ jsonValid p = true :=
+  ipfix_sol_spec ft hft ((C12.published_is_solo hc hr).2.2 id p hp)
+
+/-- **C05 ∘ C14 (lines received by the message-queue sink, IPFIX over the raw-socket producer)**: hand the payloads the
+MQ consumer has taken from the channel, in the order it took them, to the producer model; then for every outcome
+script of the network (writes that succeed, are lost, fail; dials that succeed or fail) and every retry limit, every
+chunk the sink receives is the rendering of the message tree of the decode of one received datagram's own octets,
+followed by a newline — nothing else ever reaches the sink -/
+theorem ipfix_sink_lines {cfg : Cfg} {spec : CountSpec} (ft : Val → Bytes)
+    (hft : ∀ i e v, FloatOk ⟨i, e, v, ft v⟩) (hc : Canonical spec cfg.prog)
+    {c : Cache} {mem0 : BufId → Bytes} {s : State (ipfixCodec ft)}
+    (hr : Reach cfg (init (ipfixCodec ft) c mem0) s)
+    (wo : Nat → Producer.WOut) (dl : Nat → Producer.DOut) (rm : Nat) :
+    ∀ e ∈ (Producer.run wo dl rm (s.delivered.reverse.map (·.2))).delivered,
+      ∃ (d : Dgram) (cache : Cache) (h : Hdr) (recs : List Record) (errs : List Err),
+        Event.received d ∈ s.log ∧ (Ipfix.decode cache d.addr d.bytes).1 = .ok (h, recs, errs) ∧ recs ≠ [] ∧
+        e.data = render (ipfixTree d.addr h (toJRecs ft recs)) ++ [10] ∧
+        jsonValid (render (ipfixTree d.addr h (toJRecs ft recs))) = true := by
+  intro e he
+  obtain ⟨m, hm, hdata⟩ := (C14.delivered_in_order wo dl rm _).2 e he
+  have hmem : m ∈ s.delivered.reverse.map (·.2) := List.mem_of_getElem? hm
+  simp only [List.mem_map, List.mem_reverse] at hmem
+  obtain ⟨⟨id, p⟩, hin, rfl⟩ := hmem
+  obtain ⟨d, cache, h, recs, errs, h1, _, h3, h4, h5, _, h7⟩ :=
+    ipfix_sol_spec ft hft ((C12.published_is_solo hc hr).2.1 id p hin)
+  exact ⟨d, cache, h, recs, errs, h1, h3, h4, by rw [hdata]; simp only [h5], by rw [← h5]; exact h7⟩
 
 /-- **C05 end to end (NetFlow v9)** -/
 theorem v9_published_end_to_end {cfg : Cfg} {spec : CountSpec} (ft : Val → Bytes)
